@@ -622,7 +622,9 @@ def run_shard(shard, tier, rec):
             continue
         rec.case(repr(sorted(case.items(), key=str)), nontrivial=info["nontrivial"])
         setpop = case["op"][0] == "pop" and world == "ap" and AP_KINDS[cfg][0] == "set"  # member chosen depends on addresses
-        rec.state(("after", world, cfg, repr(info.get("after")) if not setpop else len(info.get("after") or ())))
+        if not problems and info["outcome"][5] == "ok":
+            # (after an error the partial result of a set operation depends on iteration order, i.e. on addresses)
+            rec.state(("after", world, cfg, repr(info.get("after")) if not setpop else len(info.get("after") or ())))
         rec.outcome(info["outcome"])
         rec.count("cases_" + world)
         if route in ("loaded", "persistent"):
